@@ -52,6 +52,9 @@ func genCtl(r *simrt.Rand, tier string, flavor string) json.RawMessage {
 	if flavor == "C20" && r.Bool(0.12) {
 		return genCtlRejoinThroughLaggingMember(r, c)
 	}
+	if (flavor == "C20" || flavor == "C18") && r.Bool(0.12) {
+		return genCtlSelfRemovalDuringAnotherChange(r, c)
+	}
 	slot := 0
 	nodes := c.Nodes
 	maxNodes := 5
@@ -228,6 +231,26 @@ func genCtlRemoveLeader(r *simrt.Rand, c W3Case) json.RawMessage {
 	nodes++
 	c.Ops = append(c.Ops, W3Op{K: "join", Node: nodes})
 	c.Ops = append(c.Ops, W3Op{K: "create", Node: 1, DS: 1, P: r.Range(1, 2), R: r.Range(1, 2)})
+	b, _ := json.Marshal(CtlCase{W3: c})
+	return b
+}
+
+// genCtlSelfRemovalDuringAnotherChange: a member is asked to remove itself (the operator
+// sends remove-node to the node that is to leave) while another membership change - a
+// node joining through the first member - is on its way through the log. Raft drops a
+// membership change proposed while another one is pending, so whether the removal is in
+// the log is only known once this very change has been applied: an acknowledged removal
+// must be one that every member applies.
+func genCtlSelfRemovalDuringAnotherChange(r *simrt.Rand, c W3Case) json.RawMessage {
+	c.Nodes = r.Range(3, 4)
+	c.Faults = false
+	c.Cfg.Net = NetCfg{MinLatMs: r.Range(1, 8), JitterMs: r.Range(0, 10)}
+	x := r.Range(2, c.Nodes)
+	c.Ops = append(c.Ops, W3Op{K: "wait", Ms: r.Range(500, 3000)},
+		W3Op{K: "join", Node: c.Nodes + 1, Async: true}, W3Op{K: "wait", Ms: r.Range(0, 120)},
+		W3Op{K: "removenode", Node: x, A: x},
+		W3Op{K: "wait", Ms: r.Range(2000, 6000)},
+		W3Op{K: "create", Node: 1, DS: 1, P: r.Range(1, 2), R: r.Range(1, 2)})
 	b, _ := json.Marshal(CtlCase{W3: c})
 	return b
 }
@@ -469,9 +492,13 @@ func (r *W3Run) execCtlOps(st *ctlState) {
 				continue
 			}
 			via := s.nodes[0]
-			if op.Node >= 1 && op.Node <= len(s.nodes) && op.Node != op.A {
+			if op.Node >= 1 && op.Node <= len(s.nodes) {
+				// (op.Node == op.A: the request is sent to the very node that is to leave)
 				if v := s.nodes[op.Node-1]; v.alive && v.joined && !v.limbo && !v.retired {
 					via = v
+					if op.Node == op.A {
+						s.out.Stat("membership_self_removals", 1)
+					}
 				}
 			}
 			if !via.alive || !via.joined || via.limbo || via.retired {
@@ -1040,7 +1067,7 @@ func init() {
 	mk("C14", common+"oracle: every member lists the same catalogue (id, dimension, metric, partition ids, replica assignment), acknowledged creates are present, acknowledged deletes are absent and their partition groups are gone; non-trivial = at least one create/join/removal; distinct = hash of the event log",
 		[]string{"catalogue_creates", "catalogue_deletes", "catalogue_comparisons", "membership_joins", "membership_removals", "node_restarts", "follower_installed_snapshot", "canary_creates_ok", "fault_crash"}, 2000, 30000)
 	mk("C18", common+"half of the create/delete/join steps are issued without waiting (bursts); oracle: bounded liveness - the cluster settles within 120 simulated seconds, no catalogue lock is held while everything is blocked, canary creates succeed on every node; non-trivial = at least one create/join/removal; distinct = hash of the event log",
-		[]string{"catalogue_creates", "catalogue_deletes", "membership_joins", "membership_removals", "node_restarts", "canary_creates_ok", "fault_crash"}, 1200, 15000)
+		[]string{"catalogue_creates", "catalogue_deletes", "membership_joins", "membership_removals", "membership_self_removals", "node_restarts", "canary_creates_ok", "fault_crash"}, 1200, 15000)
 	mk("C20", common+"oracle: every member's address book equals the acknowledged joins minus the acknowledged removals, with the announced addresses, after settling and again after a restart of all nodes; non-trivial = at least one create/join/removal; distinct = hash of the event log",
-		[]string{"membership_joins", "membership_removals", "membership_views_compared", "node_restarts", "follower_installed_snapshot", "fault_crash"}, 1500, 30000)
+		[]string{"membership_joins", "membership_removals", "membership_self_removals", "membership_views_compared", "node_restarts", "follower_installed_snapshot", "fault_crash"}, 1500, 30000)
 }
